@@ -33,6 +33,8 @@ type GenOpts struct {
 	DataOnly     float64 // probability of an extra data-only input from a control ancestor
 	Fields       float64 // probability that a single whole-value input is expressed as field mappings
 	MaxStepsProb float64 // Pregel: probability of an explicit compile-time step limit
+	SubModes     []Mode  // modes allowed for nested graphs (nil: all three)
+	TwoBranches  float64 // probability of a second branch on a branching source
 	Prefix       string
 }
 
@@ -61,6 +63,9 @@ func Gen(r *mon.Rand, o GenOpts) *GraphSpec {
 			so.Prefix = keys[i] + "_"
 			so.MinNodes, so.MaxNodes = 1, maxInt(2, o.MaxNodes/2)
 			so.Mode = Mode(r.Intn(3))
+			if len(o.SubModes) > 0 {
+				so.Mode = o.SubModes[r.Intn(len(o.SubModes))]
+			}
 			if so.Mode != Pregel {
 				so.Cycles = 0
 			}
@@ -207,6 +212,32 @@ func Gen(r *mon.Rand, o GenOpts) *GraphSpec {
 		}
 		g.Branches = append(g.Branches, bs)
 		branchFrom[s] = targets
+		// sometimes a second branch on the same source over (partly) the same targets: a target
+		// is skipped only when no branch of the source selects it
+		if len(ts) >= 2 && r.Prob(o.TwoBranches) {
+			perm2 := r.Perm(len(ts))
+			k2 := 2 + r.Intn(len(ts)-1)
+			var t2 []string
+			for _, pi := range perm2[:k2] {
+				t2 = append(t2, ts[pi])
+			}
+			sort.Strings(t2)
+			b2 := BranchSpec{ID: fmt.Sprintf("%sb%d", o.Prefix, bid), From: s, Targets: t2, Multi: r.Prob(o.Multi), Stream: r.Prob(o.StreamCond)}
+			bid++
+			if b2.Multi {
+				b2.AllowEmpty = r.Prob(o.AllowEmpty)
+			}
+			g.Branches = append(g.Branches, b2)
+			seen := map[string]bool{}
+			for _, t := range targets {
+				seen[t] = true
+			}
+			for _, t := range t2 {
+				if !seen[t] {
+					branchFrom[s] = append(branchFrom[s], t)
+				}
+			}
+		}
 	}
 	isBranched := func(f, t string) bool {
 		for _, x := range branchFrom[f] {
